@@ -3,6 +3,7 @@ import JominiModel.Spec.TextDoc
 import JominiModel.Proofs.TextDe
 import JominiModel.Proofs.TextDeStream
 import JominiModel.Proofs.TextDeTape
+import JominiModel.Proofs.TextDeTapeNested
 /-
 C02 — Text deserialization returns the document's values on both parse paths.
 Only property theorems live here; helper lemmas are in `Proofs/TextDe*.lean`.
@@ -57,31 +58,32 @@ theorem C02_option_unknown (enc : Enc) :
 
 example : structFinish [([97], .opt .i64), ([98], .str)] 0 [(1, .str [120])] = .ok [([97], .none), ([98], .str [120])] := by rfl
 
-/- Full statement (growth): for every save-style document `d` — scalars, objects, arrays AND header
-values such as `rgb { 1 2 3 }` — every encoding and every root target type that requests the
-document's shape, `deStream enc ty (lexemes d) = valueOf enc ty d`.
-Proved below for documents without header values (`TextDoc.Node` has no header constructor yet; header
-values are covered by the correspondence runs and the implementation-side oracles only).  Everything
-else is at full strength: typed scalars, strings, enums, `Option`, `Property` with every operator,
-sequences, maps, structs with missing / duplicated / unknown fields where the unknown field's value is
-skipped at arbitrary nesting, error results included (the two sides agree on which error comes first). -/
-/-- The streaming deserializer, run on the reader tokens of a document, returns the document's value. -/
-theorem C02_stream_eq_spec_partial (enc : Enc) (ty : Ty) (d : Doc)
-    (hroot : Ty.isRoot ty = true) (hfit : Fits enc ty (.obj d)) :
+/-- The streaming deserializer, run on the reader tokens of a save-style document (scalars, objects,
+arrays, header values such as `rgb { 1 2 3 }`), returns the document's value, for every encoding and
+every root target type that requests the document's shape: typed scalars, strings, enums, `Option`,
+`Property` with every operator, sequences, maps, structs with missing / duplicated / unknown fields
+(the unknown field's value is skipped at arbitrary nesting); error results included (the two sides
+agree on which error comes first).  A header value read with a scalar target yields the header's name,
+its body is skipped in key position (that is what the code does; reading it as a sequence is the
+recorded finding `text-reader-header` and outside `Fits`); inside an array a header value counts as
+two values (`expandNodes`). -/
+theorem C02_stream_eq_spec (enc : Enc) (ty : Ty) (d : Doc)
+    (hroot : Ty.isRoot ty = true) (hwf : wfFields d = true) (hfit : Fits enc ty (.obj d)) :
     deStream enc ty (lexemes d) = valueOf enc ty d :=
-  deStream_eq_valueOf enc ty d hroot hfit
+  deStream_eq_valueOf enc ty d hroot hwf hfit
 
-/-- the hypotheses are satisfiable by a document with a nested unknown field, a Property with an
-operator, a missing Option and a sequence:  `a > 12  zz = { q = { r } }  l = { x y }` -/
+/-- the hypotheses are satisfiable by a document with a nested unknown field whose value holds a header
+value, a Property with an operator, a missing Option and a sequence:
+`a > 12  zz = { q = rgb { r } }  l = { x "y" }` -/
 example :
     let d : Doc := [([97], .gt, .leaf ⟨[49, 50], false⟩),
-                    ([122, 122], .eq, .obj [([113], .eq, .arr [.leaf ⟨[114], false⟩])]),
+                    ([122, 122], .eq, .obj [([113], .eq, .hdr [114, 103, 98] (.arr [.leaf ⟨[114], false⟩]))]),
                     ([108], .eq, .arr [.leaf ⟨[120], false⟩, .leaf ⟨[121], true⟩])]
     let ty : Ty := .st [([97], .prop .i64), ([108], .seq .str), ([111], .opt .bool)]
-    Ty.isRoot ty = true ∧ Fits .w1252 ty (.obj d) ∧
+    Ty.isRoot ty = true ∧ wfFields d = true ∧ Fits .w1252 ty (.obj d) ∧
     deStream .w1252 ty (lexemes d) =
       .ok (.st [([97], .prop .gt (.int 12)), ([108], .seq [.str [120], .str [121]]), ([111], .none)]) := by
-  refine ⟨rfl, ?_, by rfl⟩
+  refine ⟨rfl, rfl, ?_, by rfl⟩
   apply Fits.st
   intro k o v hm i t hl
   simp only [List.mem_cons, Prod.mk.injEq, List.not_mem_nil, or_false] at hm
@@ -99,41 +101,61 @@ example :
     subst this
     apply Fits.seq
     intro v hv
-    simp only [List.mem_cons, List.not_mem_nil, or_false] at hv
+    simp only [expandNodes, List.mem_cons, List.not_mem_nil, or_false] at hv
     rcases hv with rfl | rfl <;> exact Fits.scalar rfl
 
-/- Full statement (growth): for every save-style document `d` and every root target type that requests
-its shape (with `Property` only in field position), `deTape enc ty (tapeOf d) = valueOf enc ty d`.
-Proved below for the FLAT fragment: every field value of `d` is a scalar and the target is a struct
-whose declared fields have scalar types (typed leaves, strings, `any`, enums, `ign`, under `Option` /
-`Property`); unknown, missing and duplicated fields included.  Nested containers, sequences and map
-targets on the tape path are covered by the correspondence runs (the `spec_doc` op compares
-`valueOf` / `tapeOf` with the real code) and the implementation-side oracles only. -/
-/-- The tape deserializer, run on the tape of a flat document, returns the document's value. -/
-theorem C02_tape_eq_spec_partial (enc : Enc) (fs : List (Bytes × Ty)) (d : Doc)
-    (hflat : FlatFields d) (hty : ∀ n t, (n, t) ∈ fs → Ty.isFieldScalarTy t = true) :
-    deTape enc (.st fs) (tapeOf d) = valueOf enc (.st fs) d :=
-  deTape_flat_struct enc fs d hflat hty
+/-- The tape deserializer, run on the tape of a save-style document (nested objects, arrays, header
+values), returns the document's value, for every encoding and every root target type that requests
+the document's shape in the sense of `FitsT`: as `Fits`, with the two combinations taken out on which
+the tape path really behaves differently (they are recorded findings, not modelling gaps):
+`Property` outside field position, and `any` on a header value in field position. -/
+theorem C02_tape_eq_spec (enc : Enc) (ty : Ty) (d : Doc)
+    (hroot : Ty.isRoot ty = true) (hwf : wfFields d = true) (hfit : FitsT enc false ty (.obj d)) :
+    deTape enc ty (tapeOf d) = valueOf enc ty d :=
+  deTape_eq_valueOf enc ty d hroot hwf hfit
 
-example : FlatFields [([97], Op.gt, Node.leaf ⟨[49, 50], false⟩), ([98], Op.eq, Node.leaf ⟨[120], true⟩)] ∧
-    deTape .utf8 (.st [([97], .prop .i64), ([99], .opt .str)]) (tapeOf [([97], Op.gt, Node.leaf ⟨[49, 50], false⟩), ([98], Op.eq, Node.leaf ⟨[120], true⟩)])
-      = .ok (.st [([97], .prop .gt (.int 12)), ([99], .none)]) := by
-  refine ⟨?_, by rfl⟩
-  intro k o v hm
+/-- Both parse paths yield the same value (or the same error) on every save-style document. -/
+theorem C02_paths_agree (enc : Enc) (ty : Ty) (d : Doc)
+    (hroot : Ty.isRoot ty = true) (hwf : wfFields d = true) (hfit : FitsT enc false ty (.obj d)) :
+    deTape enc ty (tapeOf d) = deStream enc ty (lexemes d) :=
+  deTape_eq_deStream enc ty d hroot hwf hfit
+
+/-- the hypotheses are satisfiable by a nested document: `a > 12  c = rgb { 1 }  u = { x = { y } }  l = { { p = q } }`
+into `st(a:prop(i64); c:str; l:seq(map(str)); o:opt(bool))` (`u` unknown, `o` missing) -/
+example :
+    let d : Doc := [([97], .gt, .leaf ⟨[49, 50], false⟩),
+                    ([99], .eq, .hdr [114, 103, 98] (.arr [.leaf ⟨[49], false⟩])),
+                    ([117], .eq, .obj [([120], .eq, .arr [.leaf ⟨[121], false⟩])]),
+                    ([108], .eq, .arr [.obj [([112], .eq, .leaf ⟨[113], true⟩)]])]
+    let ty : Ty := .st [([97], .prop .i64), ([99], .str), ([108], .seq (.map .str)), ([111], .opt .bool)]
+    Ty.isRoot ty = true ∧ wfFields d = true ∧ FitsT .utf8 false ty (.obj d) ∧
+    deTape .utf8 ty (tapeOf d) =
+      .ok (.st [([97], .prop .gt (.int 12)), ([99], .str [114, 103, 98]),
+                ([108], .seq [.map [(.str [112], .str [113])]]), ([111], .none)]) ∧
+    deStream .utf8 ty (lexemes d) = deTape .utf8 ty (tapeOf d) := by
+  refine ⟨rfl, rfl, ?_, by rfl, by rfl⟩
+  apply FitsT.st
+  intro k o v hm i t hl
   simp only [List.mem_cons, Prod.mk.injEq, List.not_mem_nil, or_false] at hm
-  rcases hm with ⟨_, _, rfl⟩ | ⟨_, _, rfl⟩ <;> exact ⟨_, rfl⟩
-
-/- Full statement (growth): `deTape enc ty (tapeOf d) = deStream enc ty (lexemes d)` for every save-style
-document and every shape-requesting root type.  Proved for the flat fragment of `C02_tape_eq_spec_partial`. -/
-/-- Both parse paths yield the same value (or the same error). -/
-theorem C02_paths_agree_partial (enc : Enc) (fs : List (Bytes × Ty)) (d : Doc)
-    (hflat : FlatFields d) (hty : ∀ n t, (n, t) ∈ fs → Ty.isFieldScalarTy t = true) :
-    deTape enc (.st fs) (tapeOf d) = deStream enc (.st fs) (lexemes d) := by
-  rw [deTape_flat_struct enc fs d hflat hty,
-    deStream_eq_valueOf enc (.st fs) d rfl (fits_flat_struct enc fs d hflat hty)]
-
-example : deTape .w1252 (.st [([97], .bool)]) (tapeOf [([97], Op.eq, Node.leaf ⟨[121, 101, 115], false⟩)]) = .ok (.st [([97], .bool true)]) ∧
-    deStream .w1252 (.st [([97], .bool)]) (lexemes [([97], Op.eq, Node.leaf ⟨[121, 101, 115], false⟩)]) = .ok (.st [([97], .bool true)]) := by
-  constructor <;> rfl
+  rcases hm with ⟨rfl, rfl, rfl⟩ | ⟨rfl, rfl, rfl⟩ | ⟨rfl, rfl, rfl⟩ | ⟨rfl, rfl, rfl⟩
+  · have h : lookupIdx (decode .utf8 [97]) [([97], Ty.prop .i64), ([99], .str), ([108], .seq (.map .str)), ([111], .opt .bool)] 0 = some (0, .prop .i64) := by rfl
+    rw [h] at hl; simp at hl; obtain ⟨_, rfl⟩ := hl
+    exact FitsT.prop (FitsT.scalar rfl)
+  · have h : lookupIdx (decode .utf8 [99]) [([97], Ty.prop .i64), ([99], .str), ([108], .seq (.map .str)), ([111], .opt .bool)] 0 = some (1, .str) := by rfl
+    rw [h] at hl; simp at hl; obtain ⟨_, rfl⟩ := hl
+    exact FitsT.hdrScalar rfl (by simp)
+  · have h : lookupIdx (decode .utf8 [117]) [([97], Ty.prop .i64), ([99], .str), ([108], .seq (.map .str)), ([111], .opt .bool)] 0 = none := by rfl
+    rw [h] at hl; simp at hl
+  · have h : lookupIdx (decode .utf8 [108]) [([97], Ty.prop .i64), ([99], .str), ([108], .seq (.map .str)), ([111], .opt .bool)] 0 = some (2, .seq (.map .str)) := by rfl
+    rw [h] at hl; simp at hl; obtain ⟨_, rfl⟩ := hl
+    apply FitsT.seq
+    intro v hv
+    simp only [expandNodes, List.mem_cons, List.not_mem_nil, or_false] at hv
+    subst hv
+    apply FitsT.map
+    intro k o v hm
+    simp only [List.mem_cons, Prod.mk.injEq, List.not_mem_nil, or_false] at hm
+    obtain ⟨_, _, rfl⟩ := hm
+    exact FitsT.scalar rfl
 
 end Jomini.Props.C02
